@@ -318,7 +318,10 @@ def outcome_code(res, original_wt):
 _WORDS = ["paid_loss", "reported_loss", "earned_premium", "written_premium", "open_claims",
           "reported_claims", "closed_claims", "incurred", "case_reserve", "expected_loss",
           "paid_alae", "exposure", "rate_level", "trend", "field"]
-_NONASCII = ["é", "ß", "ñ", "Ж", "λ", "中", "日本", "€", "𝛑", "😀", "å", "ü", "ø", "Ω", "한"]
+_NONASCII = ["é", "ß", "ñ", "Ж", "λ", "中", "日本", "€", "𝛑", "😀", "å", "ü", "ø", "Ω", "한",
+             # NOT in normalisation form C: decomposed accents, compatibility singletons (OHM SIGN, ANGSTROM
+             # SIGN, CJK compatibility ideographs), a decomposed Hangul syllable
+             "e\u0301", "A\u030a", "\u2126", "\u212b", "\uf900", "\ufa0e", "\u1112\u1161\u11ab", "o\u0308\u0323"]
 
 
 def gen_string(rng, allow_empty=True, nonascii_p=0.3):
@@ -563,6 +566,14 @@ def gen_triangle(rng, max_keys=136, n_slices=None, kind=None, size="small", rest
     if "late" in force:
         n_evals = max(n_evals, 2)
     # fields that never occur in the FIRST cell of a (slice, period) row, only at later evaluations
+    if "nfc" in force:
+        # strings that are not NFC-stable as field names, detail keys / values and attributes, including two
+        # keys that differ ONLY by normalisation form
+        field_keys = list(field_keys) + ["caf\u00e9", "cafe\u0301", "\u2126_ohm", "\u03a9_ohm"]
+        for m in metas:
+            m["country"] = (m["country"] or "") + "A\u030a"
+            m["details"] = m["details"] + [["r\u00e9gion", ["str", "Qu\u00e9bec"]], ["re\u0301gion", ["str", "Que\u0301bec \u212b"]]]
+            m["loss_details"] = m["loss_details"] + [["\uf900", ["str", "\uf900"]]]
     late_fields = []
     if n_evals >= 2 and field_keys and ("late" in force or rng.random() < 0.35):
         late_fields = rng.sample(field_keys, min(len(field_keys), rng.choice([1, 2])))
@@ -1146,6 +1157,103 @@ def boundary_oracle(scratch):
     finally:
         os.unlink(p)
     return out
+
+
+def _prefix_check(tri, wt, scratch, rng, what):
+    """Write tri; every cut at a record boundary (and a few inside records) must raise or give leading cells."""
+    w = safe_write(tri, scratch)
+    if w[0] != "ok":
+        return (f"{what}: to_binary raised {w[1]}", {})
+    b = w[1]
+    try:
+        ends = ref_cell_offsets(b)
+    except Exception:  # noqa: BLE001
+        ends = []
+    cuts = sorted(set(ends[:-1]) | {rng.randrange(len(b)) for _ in range(10)})
+    for n in cuts:
+        r = impl_read(b[:n], scratch)
+        if r[0] == "ok" and not is_prefix_of(r[1], wt, ordered=False):
+            return (f"{what}: the file cut at byte {n} of {len(b)} returned {len(r[1])} cell(s) that are not the leading "
+                    "cells of the triangle that was saved, in order", {"cut": n})
+    r = impl_read(b, scratch)
+    if r[0] != "ok" or not wt_equal(r[1], wt):
+        return (f"{what}: the complete file does not read back as the triangle that was saved", {})
+    return None
+
+
+def unrankable_oracle(rng, scratch):
+    """Slices whose metadata cannot be ranked (a detail that is a number in one slice and a string in another)
+    are refused by Triangle(...) (TriangleError).  If such a triangle is ever ACCEPTED, its file must still be
+    prefix-safe.  Returns None or (what, detail)."""
+    from bermuda import Triangle
+
+    vals = [["int", 500000], ["int", 250000], ["str", "unlimited"]]
+    if rng.random() < 0.5:
+        vals = [["float", struct.pack("<d", 2.5).hex()], ["int", 1], ["none"], ["str", "x"]]
+    base = {a: None for a in META_STR_ATTRS}
+    base.update({"risk_basis": "Accident", "limit": None, "loss_details": []})
+    cells = []
+    for v in vals:
+        m = dict(base, details=[["limit", v]])
+        for k in range(rng.choice([2, 3])):
+            cells.append({"kind": "Cell", "ps": [2019 + k, 1, 1], "pe": [2019 + k, 12, 31], "ev": [2021, 12, 31],
+                          "prev": None, "values": [["paid", ["int", k]]], "meta": m})
+    try:
+        with warnings.catch_warnings():
+            warnings.simplefilter("ignore")
+            tri = Triangle(mk_cells(cells))
+    except Exception:  # noqa: BLE001 - the refusal stays a refusal
+        return None
+    wt = canon_triangle(tri)
+    bad = _prefix_check(tri, wt, scratch, rng, "a triangle with unrankable slice metadata was ACCEPTED and")
+    if bad is not None:
+        return (bad[0], {"cells": cells, "check": "unrankable", **bad[1]})
+    return None
+
+
+def derived_oracle(wt, scratch, rng, op):
+    """A triangle produced by Triangle.replace / select / derive_fields, then saved: the derived triangle must
+    be in canonical order (what the constructor gives for its cells), its file the layout of that triangle and
+    every prefix of the file a leading segment.  op: relabel | restate | select | derive."""
+    import dataclasses
+
+    from bermuda import Triangle
+
+    tri = mk_triangle(wt)
+    if len(tri) < 2:
+        return None
+    det = {"wt": wt, "derive": op, "check": "derived"}
+    try:
+        with warnings.catch_warnings():
+            warnings.simplefilter("ignore")
+            if op == "relabel":      # re-label the FIRST slice so that it sorts last
+                first = tri.cells[0].metadata
+                t2 = tri.replace(metadata=lambda c: dataclasses.replace(c.metadata, risk_basis="~zz", country="~zz")
+                                 if c.metadata == first else c.metadata)
+            elif op == "restate":    # restate the oldest valuation of every row past the later ones
+                oldest = min(c.evaluation_date for c in tri.cells)
+                t2 = tri.replace(evaluation_date=lambda c: datetime.date(9998, 12, 30)
+                                 if c.evaluation_date == oldest else c.evaluation_date)
+            elif op == "select":
+                keys = sorted({k for c in tri.cells for k in c.values})[:2]
+                t2 = tri.select(keys)
+            else:
+                t2 = tri.derive_fields(__derived__=lambda c: 1)
+            expected = Triangle(list(t2.cells))
+    except Exception:  # noqa: BLE001 - the operation itself refusing is not a codec matter
+        return None
+    wt2 = canon_triangle(t2)
+    if not wt_equal(wt2, canon_triangle(expected), ordered=True):
+        bad = _prefix_check(t2, wt2, scratch, rng, f"a triangle produced by {op} holds its cells out of canonical order;")
+        if bad is not None:
+            return (bad[0], {**det, **bad[1]})
+    bad = _prefix_check(t2, wt2, scratch, rng, f"a triangle produced by {op}, saved and cut:")
+    if bad is not None:
+        return (bad[0], {**det, **bad[1]})
+    w = safe_write(t2, scratch)
+    if w[0] == "ok" and w[1] != ref_encode(canon_triangle(expected)):
+        return (f"the file of a triangle produced by {op} is not the layout of its (sorted) cells", det)
+    return None
 
 
 def safe_write(tri, scratch, compress=False):
